@@ -1,7 +1,7 @@
 (* C17 property theorems. Nothing but statements closed by `exact lemma` and Print Assumptions. *)
 From Coq Require Import NArith List Bool.
 From OG Require Import C17.Model C17.Proofs C17.Refine C17.Corr C17.Scope C17.Gen_Consts C17.Crash.
-From OG Require Import C17.Inv C17.Search C17.Read C17.Step C17.SaveStep C17.ZeroSlots C17.Fault.
+From OG Require Import C17.Inv C17.Search C17.Read C17.Step C17.SaveStep C17.ZeroSlots C17.Fault C17.Tear.
 Import ListNotations.
 Open Scope N_scope.
 
@@ -302,3 +302,42 @@ Theorem C17_read_limit : forall hi max S i,
   consec i S -> rev (snd (take_scan hi max 0 [] S)) = limit_size max (firstn (N.to_nat (hi - i)) S).
 Proof. exact take_scan_limit. Qed.
 Print Assumptions C17_read_path.
+
+(* ================================================================================================================ *)
+(* TEARS INSIDE ONE WRITE CALL (Tear.v). A write that spans several pages is cut at a page boundary when the process is
+   killed; a write inside one page arrives or does not. *)
+
+(* sort.Search as the Go library implements it, on a table that is false up to position k and true from there on,
+   answers k: the "first position" search of the model IS the binary search of firstEmptySlot / slotGe on every file of
+   the invariant (live rows, then dead rows, then never written slots) *)
+Theorem C17_binsearch_first : forall n k f, mono_at n k f -> bsearch n f = k.
+Proof. exact bsearch_first. Qed.
+Theorem C17_first_empty_is_binsearch : forall P f A D i0,
+  fview P f A D -> 1 <= i0 -> first_empty_bin P f = first_empty_slot P f.
+Proof. exact first_empty_bin_view. Qed.
+Print Assumptions C17_first_empty_is_binsearch.
+
+(* the slot record of an entry lies inside one page: its write is never torn (so an entry is there or not - the
+   granularity of Crash.v) *)
+Theorem C17_slot_in_one_page : forall p, (entry_sz * p) / page = (entry_sz * p + entry_sz - 1) / page.
+Proof. exact slot_in_one_page. Qed.
+
+(* clearing the discarded slots in pieces from the top down (fix5.patch; each piece inside one page): after any number of
+   pieces the file is exactly the live rows below the lowest cleared slot - a prefix of the old entries, no hole, no
+   dead slot - whatever the piece boundaries *)
+Theorem C17_clear_topdown_crash : forall P cuts f A D,
+  fview P f A D -> descending (length A) cuts ->
+  fview P (clear_down (map N.of_nat cuts) f) (firstn (last cuts (length A)) A) (match cuts with [] => D | _ => [] end).
+Proof. exact clear_down_view. Qed.
+Print Assumptions C17_clear_topdown_crash.
+
+(* removing the later files of a conflict newest first (fix4.patch): every crash point leaves a prefix of the file list *)
+Theorem C17_remove_newest_first_prefix : forall (kept later : list (list entry)) j,
+  exists n, kept ++ removed_newest_first j later = firstn n (kept ++ later) /\ (length kept <= n)%nat.
+Proof. exact remove_newest_first_prefix. Qed.
+
+(* a meta record written with one write call (fix3.patch) is the old or the new one at every crash point *)
+Theorem C17_meta_one_write_atomic : forall old new k,
+  mcrash k (snap_writes_repaired new) old = old \/ mcrash k (snap_writes_repaired new) old = new.
+Proof. exact meta_one_write_atomic. Qed.
+Print Assumptions C17_meta_one_write_atomic.
